@@ -15,10 +15,39 @@ def classify(ex):
     return 5
 
 
+class ThreadTimeout(BaseException):
+    """the call made from another thread did not come back within the budget (a worker error, never an outcome)"""
+
+
+_mode = {'thread': False}
+
+
+def in_thread(f, budget=180):
+    """f() on a thread started for this one call (not the thread that imported pedantic); what it raises is re-raised here"""
+    import threading
+    box = {}
+
+    def body():
+        try:
+            box['r'] = f()
+        except BaseException as ex:      # noqa
+            box['ex'] = ex
+    t = threading.Thread(target=body, daemon=True)
+    t.start()
+    t.join(budget)
+    if t.is_alive():
+        raise ThreadTimeout('no result after %ds' % budget)
+    if 'ex' in box:
+        raise box['ex']
+    return box.get('r')
+
+
 def outcome(f):
     try:
-        f()
+        in_thread(f) if _mode['thread'] else f()
         return 0, None
+    except ThreadTimeout:
+        raise
     except BaseException as ex:      # noqa
         return classify(ex), type(ex).__name__ + ': ' + str(ex)[:120]
 
@@ -43,6 +72,110 @@ def outcome_rep(f, n=3):
     return first[0], first[1]
 
 
+# ------------------------------------------------------------------------------------------ what must not matter
+def _attr_ann(kind, cls):
+    import typing
+    k, x = kind
+    if k == 't':
+        return {'int': int, 'list_int': typing.List[int], 'optional_str': typing.Optional[str]}[x]
+    if k == 's':
+        return cls.__name__ if x == 'self' else x
+    if k == 'f':
+        return typing.ForwardRef(cls.__name__ if x == 'self' else x)
+    return x
+
+
+def iter_forward_refs(ann, seen=None):
+    import typing
+    seen = set() if seen is None else seen
+    if id(ann) in seen:
+        return
+    seen.add(id(ann))
+    if isinstance(ann, typing.ForwardRef):
+        yield ann
+    for x in getattr(ann, '__args__', None) or ():
+        if isinstance(x, (list, tuple)):
+            for y in x:
+                yield from iter_forward_refs(y, seen)
+        else:
+            yield from iter_forward_refs(x, seen)
+
+
+class CaseState:
+    """puts the world into the state the case describes and restores it afterwards:
+    clsdeco  - user classes of the universe get another __name__ / attribute annotations
+    pre      - the ForwardRef objects of the annotation are evaluated by typing.get_type_hints in ANOTHER namespace
+    thread   - the observed calls are made from another thread"""
+
+    def __init__(self, c):
+        self.c = c
+        self.undo = []
+        self.refs = []
+
+    def __enter__(self):
+        for path, d in self.c.get('clsdeco') or []:
+            cls = U.user_class(path)
+            self.undo.append((cls, cls.__name__, cls.__qualname__))
+            if d.get('name'):
+                cls.__name__ = cls.__qualname__ = d['name']
+        for path, d in self.c.get('clsdeco') or []:        # after all names are set (a self reference uses the new name)
+            if d.get('attrs'):
+                cls = U.user_class(path)
+                cls.__annotations__ = {n: _attr_ann(k, cls) for n, k in d['attrs']}
+        _mode['thread'] = bool(self.c.get('thread'))
+        return self
+
+    def pre_resolve(self, ann):
+        """what typing.get_type_hints() of some other code does to the (shared, cached) ForwardRef objects of `ann`"""
+        import typing
+        if not self.c.get('pre'):
+            return
+        self.refs = list(iter_forward_refs(ann))
+
+        def holder(x):
+            return None
+        holder.__annotations__ = {'x': ann}
+        try:
+            typing.get_type_hints(holder, globalns={}, localns=U.real_ctx(self.c['pre']))
+        except BaseException:      # noqa
+            pass
+
+    def __exit__(self, *exc):
+        _mode['thread'] = False
+        for ref in self.refs:
+            try:
+                ref.__forward_evaluated__ = False
+                ref.__forward_value__ = None
+            except BaseException:      # noqa
+                pass
+        for cls, n, q in self.undo:
+            cls.__name__, cls.__qualname__ = n, q
+            if '__annotations__' in cls.__dict__:
+                try:
+                    del cls.__annotations__
+                except BaseException:      # noqa
+                    cls.__annotations__ = {}
+        return False
+
+
+def morph(obj, target):
+    """change the mutable container obj IN PLACE into the (rendered) abstract value target of the same kind"""
+    import collections
+    new = U.render_val(target)
+    if type(new) is not type(obj):
+        raise ValueError('morph: kinds differ')
+    if isinstance(obj, list):
+        obj[:] = new
+    elif isinstance(obj, collections.deque):
+        obj.clear()
+        obj.extend(new)
+    elif isinstance(obj, (set, dict)):
+        obj.clear()
+        obj.update(new)
+    else:
+        raise ValueError('morph: not a mutable container')
+
+
 _mod_counter = [0]
 
 
@@ -63,15 +196,21 @@ def make_module(src, extra):
 
 
 def run_case(c):
+    with CaseState(c) as st:
+        return run_case_in(c, st)
+
+
+def run_case_in(c, st):
     from pedantic import assert_value_matches_type
     ctx = U.real_ctx(c['ctx'])
     globals().update(ctx)
     ann = U.render_ann(c['ann'])
-    val = U.render_val(c['val'])
-    r_ann = U.reify_ann(ann)
-    r_val = U.reify_val(val, c['val'])
-    res = {'ann': r_ann, 'val': r_val}
+    st.pre_resolve(ann)
     obs = c.get('obs', 'avmt')
+    val = U.render_val(c['val0'] if obs == 'pedantic_default' else c['val'])
+    r_ann = U.reify_ann(ann)
+    r_val = U.reify_val(U.render_val(c['val']), c['val']) if obs == 'pedantic_default' else U.reify_val(val, c['val'])
+    res = {'ann': r_ann, 'val': r_val}
     if obs == 'avmt':
         res['out'], res['exc'] = outcome(lambda: assert_value_matches_type(value=val, type_=ann, err='', type_vars={}, context=ctx))
     elif obs == 'pedantic':
@@ -84,6 +223,26 @@ def run_case(c):
             return res
         res['out'], res['exc'] = outcome_rep(lambda: mod.f(x=val), 1 if has_iter(c['val']) else 3)
         res['body_ran'] = len(journal)
+    elif obs == 'pedantic_default':
+        # the value is the DEFAULT of the parameter and every call leaves the parameter out; between the calls the default
+        # object is changed in place (val0 -> hist... -> val); observed: the calls made in the final state
+        journal = []
+        src = ('from pedantic import pedantic\n@pedantic\ndef f(x: ANN = DEF) -> None:\n    J.append(1)\n')
+        try:
+            mod = make_module(src, dict(ctx, ANN=ann, DEF=val, J=journal))
+        except BaseException as ex:
+            res['out'], res['exc'] = 9, 'decoration failed: ' + repr(ex)[:100]
+            return res
+        earlier = [outcome(lambda: mod.f())[0]]
+        for h in c.get('hist') or []:
+            morph(val, h)
+            earlier.append(outcome(lambda: mod.f())[0])
+        morph(val, c['val'])
+        res['val'] = U.reify_val(val, c['val'])
+        del journal[:]
+        res['out'], res['exc'] = outcome_rep(lambda: mod.f(), 3)
+        res['body_ran'] = len(journal)
+        res['earlier'] = earlier
     elif obs == 'pedantic_star':
         # the value as FIRST element of *args of a function under two stacked decorators (positional call)
         journal = []
@@ -549,6 +708,33 @@ def run_varargs(c):
     return r
 
 
+def run_bare_zoo(c):
+    """a generic WITHOUT type arguments x the value zoo (values outside the model's universe: named-tuple instances, objects
+    with an _asdict of their own, generators, modules, classes ...), at assert_value_matches_type and as the parameter /
+    return annotation of a @pedantic function"""
+    import typing, builtins, zoo
+    from pedantic import assert_value_matches_type
+    ann = getattr(typing, c['bare']) if c['bare'][0].isupper() else getattr(builtins, c['bare'])
+    val = zoo.values()[c['vi']]
+    r = {'val': type(val).__name__}
+    if c['pos'] == 'avmt':
+        r['out'], r['exc'] = outcome(lambda: assert_value_matches_type(value=val, type_=ann, err='', type_vars={}, context={}))
+        return r
+    journal = []
+    if c['pos'] == 'arg':
+        src = 'from pedantic import pedantic\n@pedantic\ndef f(x: ANN) -> None:\n    J.append(1)\n'
+    else:
+        src = 'from pedantic import pedantic\n@pedantic\ndef f(x: int) -> ANN:\n    J.append(1)\n    return RV\n'
+    try:
+        mod = make_module(src, dict(ANN=ann, J=journal, RV=val))
+    except BaseException as ex:
+        r['out'], r['exc'] = 9, 'decoration failed: ' + repr(ex)[:100]
+        return r
+    r['out'], r['exc'] = outcome_rep((lambda: mod.f(x=val)) if c['pos'] == 'arg' else (lambda: mod.f(x=1)))
+    r['body_ran'] = len(journal)
+    return r
+
+
 def zoo_sizes():
     import zoo
     return len(zoo.annotations()), len(zoo.values())
@@ -558,7 +744,10 @@ def main():
     cases = json.load(sys.stdin)
     for c in cases:
         try:
-            if c.get('obs') == 'zoo_sizes':
+            _mode['thread'] = bool(c.get('thread'))
+            if c.get('obs') == 'bare_zoo':
+                r = run_bare_zoo(c)
+            elif c.get('obs') == 'zoo_sizes':
                 r = {'sizes': zoo_sizes()}
             elif c.get('obs') == 'varargs':
                 r = run_varargs(c)
@@ -578,6 +767,8 @@ def main():
                 r = run_intro(c) if c.get('obs') == 'intro' else run_case(c)
         except BaseException as ex:
             r = {'error': type(ex).__name__ + ': ' + str(ex)[:200]}
+        finally:
+            _mode['thread'] = False
         print(json.dumps(r), flush=True)
 
 
